@@ -915,9 +915,6 @@ class merge_plan:
                 if l2 == [choices.current_pkg]:
                     # stop resolution.
                     conflicts = False
-                elif l2:
-                    # potentially need to do some form of cleanup here.
-                    conflicts = False
         else:
             conflicts = None
         return conflicts
